@@ -38,8 +38,9 @@ BAD_NAMES = [b"Bad Name", "N\u00e9".encode(), b"", b"A\x00", b"A\x7f", b"(c)", b
 NEUTRAL_VALUES = [b"v", b"a b", b"", b"x,y", b"example.com", b"t\tab", b"1", b"a: b", b"\"q\"", b"a;b=c"]
 BAD_VALUES = [b"nul\x00", "\u00e9".encode(), b"\x80", b"a\rb", b"\x7f", b"a\x01"]
 
-NUMERIC_GOOD = [b"0", b"1", b"3", b"5", b"05", b"12", b"007", b"10"]
-NUMERIC_BAD = [b"x", b"", b"+3", b"3 4", b"-1", b"0x3", b"3,3", b"3_0", b"+", b"-0", b"1e1", b"3.0", b"3;", b"\xef\xbc\x93"]
+NUMERIC_GOOD = [b"0", b"1", b"3", b"5", b"05", b"12", b"007", b"10", b"0" * 15 + b"5", b"0" * 17 + b"5", b"0" * 19 + b"12", b"0" * 20 + b"3", b"0" * 21 + b"5", b"0" * 22 + b"10", b"0" * 30 + b"1", b"0" * 40]
+NUMERIC_BAD = [b"x", b"", b"+3", b"3 4", b"-1", b"0x3", b"3,3", b"3_0", b"+", b"-0", b"1e1", b"3.0", b"3;", b"\xef\xbc\x93",
+               b"0" * 21 + b"x", b"0" * 30 + b"x", b"0+00000000000000a", b"00+0000000000000a", b"0" * 5 + b"+" + b"0" * 14 + b"5", b"99999999999999999999999x", b"18446744073709551616 0", b"100000000000000000000,13"]
 NUMERIC_HUGE = [b"2147483648", b"4294967296", b"9223372036854775807", b"9223372036854775808",
                 b"18446744073709551615", b"18446744073709551596", b"18446744073709551516", b"18446744073709551616",
                 b"100000000000000000000000000", b"10000000", b"9999990", b"1099511627776", b"268435457", b"140737488355328"]
